@@ -1859,4 +1859,179 @@ theorem intact_of_load_top (hs : d.length ≤ 2 ^ 63) (hbs : ob.tree.bs ≤ 10)
 
 end whole
 
+/-! ## the recursion of `Linked` / `Reach` at the level of shifted ids
+
+`Linked` and `Reach` are defined through coordinates; these equations show that they follow the
+tree exactly like `validate_rec`: left child, right descendant, `split(ranges, node)`. -/
+
+section shape
+open PlanPre
+variable (hf : HashFns H) (fl : Flavour) (ob : Store H) (data : List UInt8) (wd : Bool)
+
+theorem coords_of_nodeOf {k L : Nat} (hL : L ≤ 64) :
+    Spec.levelOf (nodeOf k L) = L ∧ Spec.indexOf (nodeOf k L) = k :=
+  ⟨levelOf_nodeOf hL, indexOf_nodeOf hL⟩
+
+/-- an inner shifted node: the stored pair must give the owed hash; continue with the left child
+and the left hash if the group starts in front of the node's mid, else with the right descendant
+and the right hash -/
+theorem Linked_inner (hs : ob.tree.size ≤ 2 ^ 63) (hbs : ob.tree.bs ≤ 10) {x : Nat}
+    (hx : x < ob.tree.shifted.2) (hleaf : Node.isLeaf x = false) (owed : H) (isRoot : Bool)
+    (g : Nat × Nat) :
+    Linked hf fl ob data wd owed x isRoot g ↔
+      ∃ lh rh lc rd, ob.load hf fl (Node.subBs x ob.tree.bs) = .ok (some (lh, rh)) ∧
+        hf.parentCv lh rh isRoot = owed ∧ Node.leftChild x = some lc ∧
+        Node.rightDescendant x ob.tree.shifted.2 = some rd ∧
+        if g.1 < Node.mid (Node.subBs x ob.tree.bs) then Linked hf fl ob data wd lh lc false g
+        else Linked hf fl ob data wd rh rd false g := by
+  obtain ⟨hc, hL⟩ := shifted_coords ob.tree hs hbs hx
+  have geo := tree_geo ob.tree hs hbs
+  unfold Linked
+  generalize Spec.indexOf x = k at hc
+  generalize Spec.levelOf x = L at hc hL
+  subst hc
+  cases L with
+  | zero => rw [C18.isLeaf_spec] at hleaf; simp at hleaf
+  | succ L =>
+    have hdl := NodeIterL.dl_level_le ob.tree.shifted.2 L (2 * k + 1)
+    rw [subBs_node geo hx, C18.mid_spec, C18.leftChild_spec (by omega),
+      NodeIterL.rightDescendant_dl _ L k (by omega) geo.odd hx]
+    simp only [LinkedC, if_pos hx]
+    constructor
+    · intro h
+      split at h
+      · rename_i lh rh hl
+        refine ⟨lh, rh, _, _, hl, h.1, rfl, rfl, ?_⟩
+        rw [(coords_of_nodeOf (by omega)).1, (coords_of_nodeOf (by omega)).2,
+          (coords_of_nodeOf (k := (NodeIterL.dl ob.tree.shifted.2 L (2 * k + 1)).1) (by omega)).1,
+          (coords_of_nodeOf (k := (NodeIterL.dl ob.tree.shifted.2 L (2 * k + 1)).1) (by omega)).2,
+          ← LinkedC_dl]
+        exact h.2
+      · exact h.elim
+    · rintro ⟨lh, rh, lc, rd, hl, hp, hlc, hrd, h⟩
+      obtain rfl := Option.some.inj hlc
+      obtain rfl := Option.some.inj hrd
+      rw [(coords_of_nodeOf (by omega)).1, (coords_of_nodeOf (by omega)).2,
+        (coords_of_nodeOf (k := (NodeIterL.dl ob.tree.shifted.2 L (2 * k + 1)).1) (by omega)).1,
+        (coords_of_nodeOf (k := (NodeIterL.dl ob.tree.shifted.2 L (2 * k + 1)).1) (by omega)).2,
+        ← LinkedC_dl] at h
+      rw [hl]
+      exact ⟨hp, h⟩
+
+/-- the same walk for the query: `split(ranges, node)`, left half to the left child, right half to
+the right descendant; an empty (sub-)query reaches nothing -/
+theorem Reach_inner (t : Tree) (hs : t.size ≤ 2 ^ 63) (hbs : t.bs ≤ 10) {x : Nat}
+    (hx : x < t.shifted.2) (hleaf : Node.isLeaf x = false) (rs : Ranges) (g : Nat × Nat) :
+    Reach t rs x g ↔
+      rs ≠ [] ∧ ∃ lc rd, Node.leftChild x = some lc ∧
+        Node.rightDescendant x t.shifted.2 = some rd ∧
+        if g.1 < Node.mid (Node.subBs x t.bs) then
+          Reach t (Ranges.splitNode rs (Node.subBs x t.bs)).1 lc g
+        else Reach t (Ranges.splitNode rs (Node.subBs x t.bs)).2 rd g := by
+  obtain ⟨hc, hL⟩ := shifted_coords t hs hbs hx
+  have geo := tree_geo t hs hbs
+  unfold Reach
+  generalize Spec.indexOf x = k at hc
+  generalize Spec.levelOf x = L at hc hL
+  subst hc
+  cases L with
+  | zero => rw [C18.isLeaf_spec] at hleaf; simp at hleaf
+  | succ L =>
+    have hdl := NodeIterL.dl_level_le t.shifted.2 L (2 * k + 1)
+    rw [subBs_node geo hx, C18.mid_spec, C18.leftChild_spec (by omega),
+      NodeIterL.rightDescendant_dl _ L k (by omega) geo.odd hx]
+    simp only [ReachC, if_pos hx]
+    constructor
+    · rintro ⟨hne, h⟩
+      refine ⟨hne, _, _, rfl, rfl, ?_⟩
+      rw [(coords_of_nodeOf (by omega)).1, (coords_of_nodeOf (by omega)).2,
+        (coords_of_nodeOf (k := (NodeIterL.dl t.shifted.2 L (2 * k + 1)).1) (by omega)).1,
+        (coords_of_nodeOf (k := (NodeIterL.dl t.shifted.2 L (2 * k + 1)).1) (by omega)).2,
+        ← ReachC_dl]
+      exact h
+    · rintro ⟨hne, lc, rd, hlc, hrd, h⟩
+      obtain rfl := Option.some.inj hlc
+      obtain rfl := Option.some.inj hrd
+      rw [(coords_of_nodeOf (by omega)).1, (coords_of_nodeOf (by omega)).2,
+        (coords_of_nodeOf (k := (NodeIterL.dl t.shifted.2 L (2 * k + 1)).1) (by omega)).1,
+        (coords_of_nodeOf (k := (NodeIterL.dl t.shifted.2 L (2 * k + 1)).1) (by omega)).2,
+        ← ReachC_dl] at h
+      exact ⟨hne, h⟩
+
+/-- a shifted leaf (chunk-group level).  With `(l, m, r) = leaf_byte_ranges3(node)`: if the node is
+persisted, the stored pair must give the owed hash and the group is the left half `[l, m)` checked
+against the left hash or the right half `[m, r)` checked against the right hash; if it is the half
+leaf (not persisted) the group is `[l, r)` checked against the owed hash itself -/
+theorem Linked_leaf (hs : ob.tree.size ≤ 2 ^ 63) (hbs : ob.tree.bs ≤ 10) {x : Nat}
+    (hx : x < ob.tree.shifted.2) (hleaf : Node.isLeaf x = true) (owed : H) (isRoot : Bool)
+    (g : Nat × Nat) :
+    Linked hf fl ob data wd owed x isRoot g ↔
+      let node := Node.subBs x ob.tree.bs
+      let lmr := ob.tree.leafByteRanges3 node
+      if ob.tree.isRelevant node then
+        ∃ lh rh, ob.load hf fl node = .ok (some (lh, rh)) ∧ hf.parentCv lh rh isRoot = owed ∧
+          if g.1 < Node.mid node then
+            g = (fullChunksOf lmr.1, chunksOf lmr.2.1) ∧
+              LeafOk hf data wd (fullChunksOf lmr.1) lmr.1 lmr.2.1 lh false
+          else
+            g = (fullChunksOf lmr.2.1, chunksOf lmr.2.2) ∧
+              LeafOk hf data wd (fullChunksOf lmr.2.1) lmr.2.1 lmr.2.2 rh false
+      else
+        g = (fullChunksOf lmr.1, chunksOf lmr.2.2) ∧
+          LeafOk hf data wd (fullChunksOf lmr.1) lmr.1 lmr.2.2 owed isRoot := by
+  obtain ⟨hc, hL⟩ := shifted_coords ob.tree hs hbs hx
+  have geo := tree_geo ob.tree hs hbs
+  unfold Linked
+  generalize Spec.indexOf x = k at hc
+  generalize Spec.levelOf x = L at hc hL
+  subst hc
+  cases L with
+  | succ L => rw [C18.isLeaf_spec] at hleaf; simp at hleaf
+  | zero =>
+    have e1 := subBs_node geo hx
+    have e2 := lbr3_node geo hx
+    have e3 := isRelevant_node geo hx
+    simp only [Nat.zero_add, Nat.lt_irrefl, decide_false, Bool.false_or] at e1 e2 e3
+    simp only [e1, e2, e3, C18.mid_spec, LinkedC, fullChunksOf_toBytes, decide_eq_true_eq]
+    by_cases hm : toBytes (midOf k ob.tree.bs) < ob.tree.size
+    · have hmin : min (toBytes (midOf k ob.tree.bs)) ob.tree.size = toBytes (midOf k ob.tree.bs) := by
+        omega
+      simp only [hm, if_true, hmin, fullChunksOf_toBytes, chunksOf_toBytes]
+      constructor
+      · rintro ⟨-, h⟩
+        split at h
+        · rename_i lh rh hl
+          exact ⟨lh, rh, hl, h⟩
+        · exact h.elim
+      · rintro ⟨lh, rh, hl, h⟩
+        rw [hl]
+        exact ⟨hx, h⟩
+    · simp only [hm, if_false]
+      exact ⟨fun h => h.2, fun h => ⟨hx, h⟩⟩
+
+/-- a shifted leaf, query side: the query is non-empty, and if the node is persisted the half of
+`split(ranges, node)` on the group's side is non-empty -/
+theorem Reach_leaf (t : Tree) (hs : t.size ≤ 2 ^ 63) (hbs : t.bs ≤ 10) {x : Nat}
+    (hx : x < t.shifted.2) (hleaf : Node.isLeaf x = true) (rs : Ranges) (g : Nat × Nat) :
+    Reach t rs x g ↔
+      rs ≠ [] ∧ (t.isRelevant (Node.subBs x t.bs) = true →
+        if g.1 < Node.mid (Node.subBs x t.bs) then
+          (Ranges.splitNode rs (Node.subBs x t.bs)).1 ≠ []
+        else (Ranges.splitNode rs (Node.subBs x t.bs)).2 ≠ []) := by
+  obtain ⟨hc, hL⟩ := shifted_coords t hs hbs hx
+  have geo := tree_geo t hs hbs
+  unfold Reach
+  generalize Spec.indexOf x = k at hc
+  generalize Spec.levelOf x = L at hc hL
+  subst hc
+  cases L with
+  | succ L => rw [C18.isLeaf_spec] at hleaf; simp at hleaf
+  | zero =>
+    have e1 := subBs_node geo hx
+    have e3 := isRelevant_node geo hx
+    simp only [Nat.zero_add, Nat.lt_irrefl, decide_false, Bool.false_or] at e1 e3
+    simp only [e1, e3, C18.mid_spec, ReachC, decide_eq_true_eq]
+
+end shape
+
 end Bao.ValidL
